@@ -54,6 +54,7 @@ class OutputSuppressionContext:
         self._restored = False
         self._restored_lock = threading.Lock()
         self._saved_fds: dict[int, int] = {}
+        self._saved_logging: tuple[int, list[logging.Handler]] | None = None
 
     def restore(self) -> None:
         """Restore stdout and stderr at both Python and OS level."""
@@ -71,6 +72,11 @@ class OutputSuppressionContext:
             self._saved_fds.clear()
             sys.stdout = sys.__stdout__
             sys.stderr = sys.__stderr__
+            if self._saved_logging is not None:
+                # The SUT may have disabled logging or removed our handlers.
+                level, handlers = self._saved_logging
+                logging.disable(level)
+                logging.getLogger().handlers[:] = handlers
 
     def __enter__(self) -> None:
         with self._restored_lock:
@@ -82,6 +88,8 @@ class OutputSuppressionContext:
             for fd in (0, 1, 2):
                 with contextlib.suppress(OSError):
                     self._saved_fds[fd] = os.dup(fd)
+            root_logger = logging.getLogger()
+            self._saved_logging = (root_logger.manager.disable, list(root_logger.handlers))
             if self._null_file.closed:
                 # A previous test case closed ``sys.stdout``, i.e., our shared null file.
                 OutputSuppressionContext._null_file = open(  # noqa: PLW1514, PTH123, SIM115
